@@ -15,7 +15,7 @@ FAULTS = {
     'os.makedirs': ['EACCES', 'ENOSPC', 'EEXIST'],
     'tempfile.mkstemp': ['EACCES', 'ENOSPC', 'EMFILE'],
     'os.write': ['EIO', 'ENOSPC', 'short:0', 'short:1', 'short:half', 'short:len-1', 'partial-then-ENOSPC'],
-    'os.close': ['EIO'],
+    'os.close': ['EIO', 'EIO-after-effect'],
     'os.rename': ['EACCES', 'EIO', 'EXDEV'],
     'os.unlink': ['EACCES', 'EIO'],
     'os.access': ['False'],
@@ -83,6 +83,10 @@ class OsProxy(object):
                 return real(*a, **k)
             if fault == 'False':
                 return False
+            if fault.endswith('-after-effect'):
+                # e.g. close(): the descriptor is released, then the deferred write error is reported
+                real(*a, **k)
+                raise _oserror(fault.split('-')[0], site)
             if site == 'os.write':
                 fd, data = a[0], a[1]
                 if fault.startswith('short:'):
